@@ -306,6 +306,24 @@ Theorem C16_read_concurrent_with_close_refuted :
 Proof. exact read_concurrent_with_close_panics_refuted. Qed.
 Print Assumptions C16_read_concurrent_with_close_refuted.
 
+(* a read pending on a polling reader when Close arrives (Model section R; repository: ReadExact / ReadExactZeroCopy test the
+   processor's context on every iteration of their loop; the reader returns (0, nil) while idle and is not unblocked by
+   Close): once the context is cancelled the read returns after at most two steps of its own, whatever else runs. *)
+Theorem C16_polling_read_returns_after_close :
+  forall (sh : rdsh) (ls : list rdpc) (h : nat),
+  rd_cancel sh = true -> (nth_error ls h = Some RChk \/ nth_error ls h = Some RRd \/ nth_error ls h = Some RRet) ->
+  nth_error (snd (run _ _ (rdstep true) (sh, ls) [h; h])) h = Some RRet.
+Proof. intros sh ls h H1 H2. exact (polling_read_returns_after_close sh ls h H1 H2). Qed.
+Print Assumptions C16_polling_read_returns_after_close.
+
+(* the context test hoisted out of the loop: Close returns, the read keeps polling, no schedule ever ends it *)
+Theorem C16_hoisted_context_check_refuted :
+  exists pre,
+    let s := run _ _ (rdstep false) ({| rd_cancel := false |}, [RChk; RCl]) pre in
+    snd s = [RRd; RClDone] /\ rd_cancel (fst s) = true /\ (forall sched, run _ _ (rdstep false) s sched = s).
+Proof. exact hoisted_context_check_refuted. Qed.
+Print Assumptions C16_hoisted_context_check_refuted.
+
 (* (5) start_close — Tunnel.Start against Tunnel.Close over {state, context, dispose latch} (Model section E, repository
    order: SetCtx before the Connecting->Connected CAS; `spawns` go statements).  ANY number of Start calls and Close calls,
    ANY interleaving of their atomic steps (so in particular a complete Close at every point inside Start):
